@@ -196,6 +196,10 @@ def main(argv: Optional[list] = None) -> int:
     cache = tempfile.mkdtemp(prefix="vfcache-", dir=os.path.join(VERIF, "out") if os.path.isdir(os.path.join(VERIF, "out")) else None)
     os.environ["SPSDK_CACHE_FOLDER"] = cache
     os.environ.setdefault("VF_TMP", cache)
+    # every temporary directory a sampler or bounded module creates lives below the per-run directory and is removed with it
+    os.makedirs(os.path.join(cache, "tmp"), exist_ok=True)
+    os.environ["TMPDIR"] = os.path.join(cache, "tmp")
+    tempfile.tempdir = None
     try:
         if args.replay:
             return _replay_file(args.replay)
